@@ -19,7 +19,7 @@ use std::io::Cursor;
 
 pub const STATES: [&str; 6] = ["await-demand", "await-sync", "await-cooperate", "await-granted", "await-fontmap", "active"];
 
-pub const KINDS: [&str; 14] = [
+pub const KINDS: [&str; 20] = [
     "demand-active",
     "synchronize",
     "control-cooperate",
@@ -34,7 +34,20 @@ pub const KINDS: [&str; 14] = [
     "fp-colour-pointer",
     "fp-mixed",
     "fp-unknown",
+    // PDUs a conforming server never sends but a hostile one can: client-to-server types echoed back, other known types
+    "confirm-active-echo",
+    "fontlist-echo",
+    "input-echo",
+    "server-redirect",
+    "data-type2-sweep-a",
+    "data-type2-sweep-b",
 ];
+
+/// every pduType2 value the client's enum lists, plus neighbours
+pub const TYPE2: [u8; 28] = [0x02, 0x14, 0x1B, 0x1C, 0x1F, 0x21, 0x22, 0x23, 0x24, 0x25, 0x26, 0x27, 0x28, 0x29, 0x2B, 0x2C, 0x2D, 0x2E, 0x2F, 0x30, 0x31, 0x32, 0x36, 0x37, 0x00, 0x01, 0x38, 0xFF];
+
+/// payloads made of several share-control PDUs: every ordered pair and triple over this set
+pub const MULTI: [&str; 6] = ["set-error-info", "deactivate-all", "synchronize", "demand-active", "font-map", "unknown-data"];
 
 pub fn build_kind(p: &Profile, kind: &str, sid: u32) -> (B, Wrap) {
     match kind {
@@ -79,10 +92,55 @@ pub fn build_kind(p: &Profile, kind: &str, sid: u32) -> (B, Wrap) {
             b.nest("u3", &proto::fp_update(8, &pos));
             (b, Wrap::FastPath { sec: 0, long: false })
         }
-        _ => {
+        "fp-unknown" => {
             let mut d = B::new();
             d.bytes("data", &[1, 2, 3, 4, 5]);
             (proto::fp_update(0xC, &d), Wrap::FastPath { sec: 0, long: false })
+        }
+        "confirm-active-echo" => {
+            // what the client itself sends, echoed by the server (well formed, originatorId 0x03EA)
+            let caps = proto::capability_sets(&p.caps[..p.caps.len().min(4)]);
+            let mut body = B::new();
+            body.u32le("ca.shareId", sid).u16le("ca.originatorId", 0x03EA).u16le("ca.lengthSourceDescriptor", 4).u16le("ca.lengthCombinedCapabilities", (caps.len() + 4) as u16).bytes("ca.sourceDescriptor", b"RDP\0").u16le("ca.numberCapabilities", p.caps.len().min(4) as u16).u16le("ca.pad", 0);
+            body.nest("caps", &caps);
+            (proto::share_control(0x0013, p.server_channel, &body), Wrap::Sdi)
+        }
+        "fontlist-echo" => {
+            let mut b = B::new();
+            b.u16le("fl.numberFonts", 0).u16le("fl.totalNumFonts", 0).u16le("fl.listFlags", 3).u16le("fl.entrySize", 0x32);
+            (proto::data_pdu(p, sid, 0x27, &b), Wrap::Sdi)
+        }
+        "input-echo" => {
+            let mut b = B::new();
+            b.u16le("in.numEvents", 1).u16le("in.pad", 0).u32le("in.time", 0).u16le("in.type", 0x8001).u16le("in.flags", 0x8000).u16le("in.x", 1).u16le("in.y", 2);
+            (proto::data_pdu(p, sid, 0x1C, &b), Wrap::Sdi)
+        }
+        "server-redirect" => {
+            let mut body = B::new();
+            body.u16le("rd.flags", 0x0400).u16le("rd.length", 12).u32le("rd.sessionId", 1).u32le("rd.redirFlags", 0);
+            (proto::share_control(0x001A, p.server_channel, &body), Wrap::Sdi)
+        }
+        k if k.starts_with("data-type2-sweep") => {
+            // several data PDUs of different pduType2 in one payload (the sweep index selects the starting type)
+            let start = if k.ends_with("a") { 0 } else { 14 };
+            let mut b = B::new();
+            for (i, t) in TYPE2.iter().skip(start).take(14).enumerate() {
+                b.nest(&format!("t{}", i), &proto::other_data_pdu(p, sid, *t, &[0, 0, 1, 0, 2, 0, 3, 0, 4, 0, 0, 0]));
+            }
+            (b, Wrap::Sdi)
+        }
+        k if k.starts_with("multi:") => {
+            let mut b = B::new();
+            for (i, part) in k[6..].split('+').enumerate() {
+                let (pb, _) = build_kind(p, part, sid);
+                b.nest(&format!("m{}", i), &pb);
+            }
+            (b, Wrap::Sdi)
+        }
+        _ => {
+            let mut d = B::new();
+            d.bytes("data", &[9, 9, 9]);
+            (proto::fp_update(0xD, &d), Wrap::FastPath { sec: 0, long: false })
         }
     }
 }
@@ -229,6 +287,21 @@ fn all_plans(seed: u64, quick: bool) -> Vec<Plan> {
                         v[0] = x;
                         plans.push(Plan { state, kind: kind.to_string(), layer: "inner", via_tls: false, mutant: Mutant { class: "update-header-all-values".into(), bytes: v, at: 0 } });
                     }
+                }
+            }
+        }
+    }
+    // every ordered pair and triple of share-control PDUs in one payload, unfaulted, in every state
+    for state in 0..6 {
+        for a in MULTI.iter() {
+            for b2 in MULTI.iter() {
+                let k = format!("multi:{}+{}", a, b2);
+                let (b, _) = build_kind(&p, &k, SID);
+                plans.push(Plan { state, kind: k, layer: "inner", via_tls: false, mutant: Mutant { class: "valid".into(), bytes: b.v.clone(), at: 0 } });
+                for c in MULTI.iter() {
+                    let k = format!("multi:{}+{}+{}", a, b2, c);
+                    let (b, _) = build_kind(&p, &k, SID);
+                    plans.push(Plan { state, kind: k, layer: "inner", via_tls: false, mutant: Mutant { class: "valid".into(), bytes: b.v.clone(), at: 0 } });
                 }
             }
         }
